@@ -47,6 +47,7 @@ def sh(cmd, timeout=None, env=None, cwd=None, stdin=None):
 SAN = {
     "asan": ["-fsanitize=address,undefined", "-fno-sanitize-recover=all", "-fno-omit-frame-pointer"],
     "tsan": ["-fsanitize=thread", "-fno-omit-frame-pointer"],
+    "msan": ["-fsanitize=memory", "-fsanitize-memory-track-origins", "-fno-omit-frame-pointer"],
     "plain": [],
 }
 
